@@ -61,8 +61,43 @@ pub fn check(sc: &Scenario, ex: &mut Exec) -> (Verdict, Option<String>) {
     };
     let plan = DrawPlan::neutral(sc.engine_seed).with_row_id(DrawMode::Inc).with_cap(DrawMode::Inc);
 
-    // hypothesis: no unit exceeds the multiplicity the clipping bound allows. Checked
-    // dynamically: every scale factor the rewritten query computes must be exactly 1.
+    // hypothesis: no unit exceeds the multiplicity the clipping bound allows.
+    // The allowed multiplicity m is read from a side compile of the same FROM / WHERE / GROUP BY
+    // with `count(*)` as only aggregate: its clip constant is m x 1 (the count path does not go
+    // through any column-range arithmetic). If every unit has at most m rows in the aggregation
+    // input, in-range data cannot be clipped - then a scale factor below 1 is itself a deviation
+    // from the true answer that is neither noise nor clipping the hypothesis allows. If some unit
+    // has more rows, clipping may legitimately be active and the run is not compared.
+    let mut within_allowed_multiplicity = false;
+    if q.cte.is_none() {
+        if let Some((base_alias, base_table)) = &sc.base {
+            let mut side = sc.clone();
+            let mut q2 = q.clone();
+            q2.aggs = vec![simcommon::query::AggSpec { f: AggFn::CountStar, distinct: false, arg: String::new(), alias: "c__".into(), scale: 1.0 }];
+            q2.outer = None;
+            q2.having = None;
+            side.sql = q2.sql();
+            side.query = Some(q2);
+            if let Ok(c2) = pipeline::compile(&side) {
+                let cs: Vec<f64> = ir::scale_maps(&c2.dp).iter().flat_map(|m| m.factors.iter().map(|f| f.1)).collect();
+                if let Some(m_est) = cs.iter().cloned().fold(None, |a: Option<f64>, c| Some(a.map_or(c, |x| x.min(c)))) {
+                    let side_t = crate::owners::side_tables(&sc.tables, &own);
+                    let tabs2: Vec<&TableSpec> = sc.tables.iter().chain(sc.synthetic.iter()).chain(side_t.iter()).collect();
+                    if let Ok(mut e2) = ex.engine(&tabs2) {
+                        let rows_sql = format!(
+                            "SELECT __w.unit AS u, count(*) AS n FROM {} JOIN \"__own_{}\" AS __w ON __w.rid = {}.rowid{} GROUP BY __w.unit",
+                            q.from_clause(), base_table, base_alias, q.where_clause()
+                        );
+                        if let Ok((rs, _)) = ex.query(&mut e2, "rows_per_unit", &rows_sql, &plan) {
+                            let r_max = rs.rows.iter().filter_map(|r| num(&r[1])).fold(0.0, f64::max);
+                            within_allowed_multiplicity = r_max <= m_est;
+                            ex.log.push(format!("multiplicity allowed={} max_rows_per_unit={}", m_est, r_max));
+                        }
+                    }
+                }
+            }
+        }
+    }
     for sm in ir::scale_maps(&compiled.dp) {
         let sql = pipeline::render(&sm.map);
         match ex.query(&mut eng, "scale_factors", &sql, &plan) {
@@ -72,6 +107,27 @@ pub fn check(sc: &Scenario, ex: &mut Exec) -> (Verdict, Option<String>) {
                         for r in &rs.rows {
                             let v = num(&r[ci]).unwrap_or(1.0);
                             if *c != 0.0 && v != 1.0 {
+                                // the rows that public key values without data contribute (left
+                                // join with the declared values) form a phantom unit with a NULL
+                                // id and one row per empty group: not a privacy unit of the data
+                                let phantom = rs
+                                    .col(qrlew::privacy_unit_tracking::PrivacyUnit::privacy_unit())
+                                    .map_or(false, |i| r[i].is_null());
+                                if within_allowed_multiplicity && !phantom {
+                                    return (
+                                        Verdict::Violations(vec![Violation {
+                                            property: "C09".into(),
+                                            invariant: "clipped_within_allowed_multiplicity".into(),
+                                            class: "unclassified".into(),
+                                            detail: format!(
+                                                "no privacy unit has more rows than the multiplicity the bound allows and the data are inside the declared ranges, yet the rewritten query scales a unit's {} by {} (clip constant {}): the answer deviates for a reason that is neither noise nor permitted clipping",
+                                                name, v, c
+                                            ),
+                                            witness: json!({"column": name, "scale_factor": v, "clip": c}),
+                                        }]),
+                                        Some(shape_of(sc, "clipped")),
+                                    );
+                                }
                                 ex.stats.probe("clipping_active");
                                 return (Verdict::Skip("clipping_active".into()), None);
                             }
@@ -80,11 +136,6 @@ pub fn check(sc: &Scenario, ex: &mut Exec) -> (Verdict, Option<String>) {
                 }
             }
             Err(e) => return (Verdict::Skip(format!("engine_gap:{}", short(&e))), None),
-        }
-        for (_, c) in &sm.factors {
-            if *c == 0.0 {
-                // bound 0: the column is a declared constant zero, nothing can deviate
-            }
         }
     }
 
